@@ -757,7 +757,7 @@ func c04Expected(p *Prog, r *Report) {
 // makes it 0.  A floor, cap or any other conditional definition shifts every
 // day of the run by one record for exactly those start dates.
 func c04StartOffset(p *Prog, r *Report) {
-	r.Rule("C04.R7", "start offset: Init sets the record index to (day of year of the start date) − 2 by one unconditional, unclamped definition; the day of year is the first result of the date conversion whose second result is the start day number", 3)
+	r.Rule("C04.R7", "start offset: Init sets the record index to (day of year of the start date) − 2 by one unconditional, unclamped definition; the day of year is the first result of the date conversion whose second result is the start day number; the year counter must equal the calendar year of the first day", 4)
 	x := walked(p, "hermes.Init")
 	if x == nil {
 		r.Ob("Init", "-", false, "hermes.Init not found")
@@ -777,6 +777,47 @@ func c04StartOffset(p *Prog, r *Report) {
 	}
 	if n != 1 {
 		r.Ob("start:index", "-", false, fmt.Sprintf("%d definitions of the record index in Init, expected exactly 1", n))
+	}
+	// the year the weather is loaded for (1900 + J, from the configured start year) must be the calendar year of the
+	// first simulated day: anything but an exact match makes every day consume the record of another year
+	if run := walked(p, "hermes.HermesSession.Run"); run != nil {
+		okY := false
+		det := "no error return under 'year of the first day ≠ year counter' in the day loop"
+		posY := "-"
+		for _, e := range run.Events {
+			if e.Kind != "return" || len(e.Loops) == 0 || len(e.Rets) == 0 || isNilPoly(e.Rets[len(e.Rets)-1]) {
+				continue
+			}
+			first := false
+			var cmp *Cond
+			for _, g := range flattenGuards(e.Guards) {
+				if g.Kind != "cmp" {
+					continue
+				}
+				if g.Op == token.EQL && g.P.MentionsRoot("GlobalVarsMain.BEGINN") {
+					first = true
+				}
+				if strings.Contains(g.P.String(), "KalenderDate.0(") && g.P.MentionsRoot("GlobalVarsMain.J") {
+					cmp = g
+				}
+			}
+			if !first || cmp == nil {
+				continue
+			}
+			posY = p.Pos(e.Pos)
+			// P = ±(1900 + J − year(ZEIT)), Op must be !=
+			form := false
+			for _, sgn := range []int64{1, -1} {
+				q := cmp.P.Scale(ratInt(sgn)).Sub(cellP("GlobalVarsMain.J")).Sub(PInt(1900))
+				qs := stripVersions(q)
+				if t := qs.single(); t != nil && len(t.M) == 1 && t.C.Cmp(ratInt(-1)) == 0 && strings.HasPrefix(t.M[0].A.Key, "hermes.KalenderDate.0(") {
+					form = true
+				}
+			}
+			okY = form && cmp.Op == token.NEQ
+			det = fmt.Sprintf("on the first day the run ends with an error under [%s] (must be: calendar year of the first day ≠ 1900 + year counter, an inequality test in one direction lets the other direction through)", cmp.Key())
+		}
+		r.Ob("start:year-match", posY, okY, det)
 	}
 	// source of ITAG: first result of the conversion of the start entry's date
 	fi := p.Funcs["hermes.Input"]
